@@ -228,8 +228,8 @@ class CdsShortTimestamp(CcsdsTimeProvider):
         instance._datetime = dt
         instance._unix_seconds = dt.timestamp()
         full_unix_secs = int(math.floor(instance._unix_seconds))
-        subsec_millis = int((instance._unix_seconds - full_unix_secs) * 1000)
-        unix_days = int(full_unix_secs / SECONDS_PER_DAY)
+        subsec_millis = dt.microsecond // 1000
+        unix_days = full_unix_secs // SECONDS_PER_DAY
         secs_of_day = full_unix_secs % SECONDS_PER_DAY
         instance._ms_of_day = secs_of_day * 1000 + subsec_millis
         instance._ccsds_days = convert_unix_days_to_ccsds_days(unix_days)
